@@ -31,6 +31,22 @@ def rust_path(q):
     return None
 
 
+# crate-declared traits whose impls are probed as well (rust path of the trait)
+TRAIT_PATHS = {"Timer": "futures_intrusive::timer::Timer", "LocalTimer": "futures_intrusive::timer::LocalTimer"}
+
+
+def load_timpls(types):
+    d = json.load(open(os.path.join(COQ, "Gen", "TypesGen.json")))
+    names = {t["name"]: t for t in types}
+    seen, out = set(), []
+    for ti in d.get("trait_impls", []):
+        if ti["trait"] in TRAIT_PATHS and ti["target"] in names and (ti["trait"], ti["target"]) not in seen:
+            seen.add((ti["trait"], ti["target"]))
+            out.append((ti["trait"], names[ti["target"]]))
+    # a guarded trait that lost all its impls must show up, too
+    return out
+
+
 # witness marker for bits (send, sync, unpin)
 def marker(b):
     s, y, u = b
@@ -127,6 +143,22 @@ fn main() {
                 code = "".join("%d%d%d" % b for b in a)
                 lines.append('    println!("%s %s %s {}", (&P::<%s>(PhantomData)).is_%s());' % (t["name"], trait, code or "-", ty, trait.lower()))
                 n += 1
+    for k, (tname, path) in enumerate(sorted(TRAIT_PATHS.items())):
+        lines.insert(1, "trait YesT%d { fn is_t%d(&self) -> u8 { 1 } } impl<T: ?Sized + %s> YesT%d for P<T> {}\n"
+                        "trait NoT%d { fn is_t%d(&self) -> u8 { 0 } }  impl<T: ?Sized> NoT%d for &P<T> {}\n" % (k, k, path, k, k, k, k))
+    tidx = {t: k for k, t in enumerate(sorted(TRAIT_PATHS))}
+    for tname, t in load_timpls(types):
+        for a in assignments_for(len(t["params"]), "Send"):
+            tw = None
+            for kind, b in zip(t["kinds"], a):
+                if kind == "plain":
+                    tw = witness("plain", b, None)
+            ws = [witness(kind, b, tw) for kind, b in zip(t["kinds"], a)]
+            args = ["'static"] * t["lifetimes"] + ws
+            ty = t["path"] + ("<%s>" % ", ".join(args) if args else "")
+            code = "".join("%d%d%d" % b for b in a)
+            lines.append('    println!("%s impl:%s %s {}", (&P::<%s>(PhantomData)).is_t%d());' % (t["name"], tname, code or "-", ty, tidx[tname]))
+            n += 1
     lines.append("}\n")
     with open(os.path.join(PROBE, "src", "main.rs"), "w") as f:
         f.write("\n".join(lines))
@@ -155,6 +187,12 @@ def gen_coq_table(types):
                 env = "[" + "; ".join("mkB %s %s %s" % tuple("true" if x else "false" for x in b) for b in a) + "]"
                 code = "".join("%d%d%d" % b for b in a) or "-"
                 rows.append('("%s %s %s", holds structs impls %s "%s" %s)' % (t["name"], trait, code, trait, t["name"], env))
+    timpls = load_timpls(types)
+    for tname, t in timpls:
+        for a in assignments_for(len(t["params"]), "Send"):
+            env = "[" + "; ".join("mkB %s %s %s" % tuple("true" if x else "false" for x in b) for b in a) + "]"
+            code = "".join("%d%d%d" % b for b in a) or "-"
+            rows.append('("%s impl:%s %s", timpl_holds trait_impls "%s" "%s" %s)' % (t["name"], tname, code, tname, t["name"], env))
     with open(os.path.join(COQ, "Gen", "C16Table.v"), "w") as f:
         f.write("(* GENERATED by tools/c16.py: the instances probed with rustc, evaluated by the Coq rules *)\n")
         f.write("From Coq Require Import List String Bool.\nFrom FI Require Import AutoTraits TypesGen.\nImport ListNotations.\nOpen Scope string_scope.\n")
@@ -171,6 +209,10 @@ def gen_coq_table(types):
             for a in assignments_for(len(t["params"]), trait):
                 code = "".join("%d%d%d" % b for b in a) or "-"
                 table[(t["name"], trait, code)] = ("%s %s %s" % (t["name"], trait, code)) in yes
+    for tname, t in timpls:
+        for a in assignments_for(len(t["params"]), "Send"):
+            code = "".join("%d%d%d" % b for b in a) or "-"
+            table[(t["name"], "impl:" + tname, code)] = ("%s impl:%s %s" % (t["name"], tname, code)) in yes
     for f in ("C16Table.vo", "C16Table.glob", ".C16Table.aux", "C16Table.vok", "C16Table.vos"):
         try:
             os.remove(os.path.join(COQ, "Gen", f))
@@ -258,6 +300,20 @@ def run(prop="C16", tier="quick", seed=1):
                 confirmed = rt.get((name, trait, code))
                 problems.append(dict(kind="monitor", what=what, type=name, trait=trait, assignment=code,
                                      rustc_accepts=confirmed, failing_input=rust_expr(types, name, trait, code)))
+    # guarded producers: every impl of a guarded trait must reject a lock type that is not Sync.
+    # The concrete failing input is the instance rustc accepts although the lock is !Sync.
+    for (name, trait, code), v in sorted(rt.items()):
+        if trait == "impl:Timer" and v and code[1] == "0":
+            t = [x for x in types if x["name"] == name][0]
+            a = [tuple(int(c) for c in code[i:i + 3]) for i in range(0, len(code), 3)]
+            ws = [witness(kind, b, None) for kind, b in zip(t["kinds"], a)]
+            ty = t["path"] + "<%s>" % ", ".join(ws)
+            problems.append(dict(kind="monitor", what="unguarded-producer", type=name, trait="Timer", assignment=code,
+                                 rustc_accepts=True,
+                                 failing_input="fn assert_send<X: Send>(_: X) {} let svc: &'static %s = todo!(); "
+                                               "assert_send(futures_intrusive::timer::Timer::delay(svc, std::time::Duration::from_secs(1))); "
+                                               "/* accepted: a Send TimerFuture that locks a !Sync mutex from another thread */" % ty))
+            break
     cov["c16_wall_s"] = round(time.time() - t0, 1)
     return problems, cov
 
